@@ -557,12 +557,18 @@ def to_docstring(
         if intermediate_repr.get("params")
         else "",
         returns=(
-            "{returns}\n{sep}".format(
-                returns=param2docstring_param(
+            (
+                # a return entry without prose renders to None: emit nothing instead of calling None.rstrip()
+                lambda returns_doc: "{returns}\n{sep}".format(
+                    returns=returns_doc.rstrip(), sep=sep
+                )
+                if returns_doc
+                else ""
+            )(
+                param2docstring_param(
                     next(iter(intermediate_repr["returns"].items())),
                     emit_default_doc=emit_default_doc,
-                ).rstrip(),
-                sep=sep,
+                )
             )
             if (intermediate_repr.get("returns") or {"return_type": {}})["return_type"]
             else ""
